@@ -1198,10 +1198,20 @@ impl<'a> Judge<'a> {
                         for a in v.iter().step_by(2) {
                             let covered = match a {
                                 None => m_adds.contains(&None),
-                                Some(id) => all_adds.iter().any(|u| {
-                                    is_anc(&self.union, id, u)
-                                        && self.follow_set(follow, u).iter().any(|x| m_adds.contains(&Some(x.clone())))
-                                }),
+                                Some(id) => {
+                                    // some add of the conflict is a (followed) value of some side and is
+                                    // the (followed) value `id` itself or a descendant of it
+                                    let mut from: BTreeSet<Id> = self.follow_set(follow, id);
+                                    from.insert(id.clone());
+                                    all_adds.iter().any(|u| {
+                                        let mut fu = self.follow_set(follow, u);
+                                        fu.insert(u.clone());
+                                        fu.iter().any(|x| {
+                                            m_adds.contains(&Some(x.clone()))
+                                                && from.iter().any(|a2| is_anc(&self.union, a2, x))
+                                        })
+                                    })
+                                }
                             };
                             if !covered {
                                 let msg = format!(
@@ -1659,9 +1669,10 @@ fn main() {
         triple_sets.push((&family[2], small_alphabet(8)));
     } else {
         triple_sets.push((&family[0], full_alphabet(&family[0])));
-        triple_sets.push((&family[1], small_alphabet(16)));
-        triple_sets.push((&family[2], small_alphabet(16)));
-        triple_sets.push((&family[3], small_alphabet(12)));
+        triple_sets.push((&family[1], full_alphabet(&family[1])));
+        triple_sets.push((&family[2], full_alphabet(&family[2])));
+        triple_sets.push((&family[3], small_alphabet(16)));
+        triple_sets.push((&family[4], small_alphabet(16)));
     }
     let cross_bases: Vec<&BaseSpec> = family.iter().take(ctx.pick(1, 3)).collect();
     let cross_first = first_round_alphabet(ctx.pick(6, 8));
